@@ -535,9 +535,13 @@ class Scene(Geometry3D):
         # get the area of every geometry that has an area property
         areas = {n: g.area for n, g in self.geometry.items() if hasattr(g, "area")}
         # sum the area including instancing
-        return sum(
-            (areas.get(self.graph[n][1], 0.0) for n in self.graph.nodes_geometry), 0.0
-        )
+        total = 0.0
+        for node in self.graph.nodes_geometry:
+            transform, geometry_name = self.graph[node]
+            # an instance placed with a scaled transform has a scaled area
+            scale = np.abs(np.linalg.det(transform[:3, :3])) ** (1.0 / 3.0)
+            total += areas.get(geometry_name, 0.0) * (scale**2)
+        return total
 
     @caching.cache_decorator
     def volume(self) -> float64:
@@ -552,10 +556,15 @@ class Scene(Geometry3D):
         """
         # get the area of every geometry that has a volume attribute
         volume = {n: g.volume for n, g in self.geometry.items() if hasattr(g, "area")}
-        # sum the area including instancing
-        return sum(
-            (volume.get(self.graph[n][1], 0.0) for n in self.graph.nodes_geometry), 0.0
-        )
+        # sum the volume including instancing
+        total = 0.0
+        for node in self.graph.nodes_geometry:
+            transform, geometry_name = self.graph[node]
+            # an instance placed with a scaled transform has a scaled volume
+            total += volume.get(geometry_name, 0.0) * np.abs(
+                np.linalg.det(transform[:3, :3])
+            )
+        return total
 
     @caching.cache_decorator
     def triangles(self) -> NDArray[float64]:
